@@ -40,6 +40,8 @@ def main (args : List String) : IO UInt32 := do
   match args with
   | ["C01"] => loopSt stdin stdout C01.step {}; return 0
   | ["C02"] => loopSt stdin stdout Brk.stepLine {}; return 0
+  | ["C11"] => loopSt stdin stdout Brk.stepLine {}; return 0
+  | ["C14"] => loopSt stdin stdout Brk.stepLine {}; return 0
   | ["C07"] => loopSt stdin stdout Brk.stepLine {}; return 0
   | ["C08"] => loopSt stdin stdout Brk.stepLine {}; return 0
   | ["C18"] => loopSt stdin stdout Brk.stepLine {}; return 0
